@@ -243,7 +243,39 @@ class C13(Check):
         if majors:
             for s in estimate_minor(gene, cov, majors, "any", max_solutions=mms):
                 mn.append((round(s.score, 2), tuple(sorted((a.major, a.minor, refseq_set(gene, a.added), refseq_set(gene, a.missing)) for a in s.solution))))
+        self._last = (gene, p, table, cnlist, majors, phases)
         return mj, sorted(mn), bool(phases)
+
+    def _optimal_readouts(self, ctx):
+        """Complete set of optimal refinements (RefSeq notation) per major solution, by enumeration (minor_ref)."""
+        from ..ref import minor_ref, major_ref
+        import collections as C
+
+        gene, p, table, cnlist, majors, phases = ctx
+        obs = {pos: {op: [tables.HQ] * n for op, n in d.items()} for pos, d in table.items()}
+        considered = set()
+        pooled = []
+        for ms in majors:
+            for sa in ms.solution:
+                considered |= {(m.pos, m.op) for m in gene.alleles[sa.major].func_muts}
+                for mi, mn_ in gene.alleles[sa.major].minors.items():
+                    considered |= {(m.pos, m.op) for m in mn_.neutral_muts}
+                    pooled.append((sa.major, mi))
+            considered |= {(m.pos, m.op) for m in ms.added}
+        considered |= {(m.pos, m.op) for m in gene.random_mutations}
+        out = set()
+        f = minor_ref.evidence_filter(gene, p, obs, cnlist, considered)
+        for ms in majors:
+            counts = C.Counter()
+            for sa, k in ms.solution.items():
+                counts[sa.major] += k
+            model = minor_ref.Model(gene, p, f, cnlist, counts, considered, phases or None, pooled=sorted(set(pooled)))
+            best, asg = model.enumerate(limit=None, slack=5e-3)
+            for o, copies, carried in asg:
+                ro = model.readout(copies, carried)
+                out.add(tuple(sorted((M, mi, tuple(sorted(ident(gene, m) for m in ad)), tuple(sorted(ident(gene, m) for m in mis)))
+                                     for M, mi, ad, mis in ro)))
+        return out
 
     def _eval_table(self, st):
         from .. import repo
@@ -265,9 +297,14 @@ class C13(Check):
         if not close(r["hg19"][0], r["hg38"][0]):
             v.append(("builds/major-differs" + tag, f"{where}: hg19 {r['hg19'][0][:3]} vs hg38 {r['hg38'][0][:3]}"))
         elif not close(r["hg19"][1], r["hg38"][1]):
-            full = {b: self._run_table(wk, b, planted, devs, gap, 20) for b in ("hg19", "hg38")}
-            s19 = {x[1] for x in full["hg19"][1]}
-            s38 = {x[1] for x in full["hg38"][1]}
+            try:
+                self._run_table(wk, "hg19", planted, devs, gap, 1)
+                s19 = self._optimal_readouts(self._last)
+                self._run_table(wk, "hg38", planted, devs, gap, 1)
+                s38 = self._optimal_readouts(self._last)
+            except Exception:
+                s19 = s38 = set()
+            full = {"hg19": (None, []), "hg38": (None, [])}
             sc19 = sorted(round(x[0], 2) for x in r["hg19"][1])
             sc38 = sorted(round(x[0], 2) for x in r["hg38"][1])
             capped = len(full["hg19"][1]) >= 20 or len(full["hg38"][1]) >= 20      # more optimal refinements than enumerated
